@@ -9,6 +9,7 @@
 #include <set>
 #include <map>
 using namespace vf; using namespace mxh;
+extern "C" void vfh_dtls_replay_state(const ssl_t *ssl, unsigned long *bitmap, unsigned char lastRsn[6], unsigned char expEpoch[2]);
 
 enum { D_DELIVER, D_DROP, D_DUP, D_SWAP, D_HOLD, D_TIMEOUT_C, D_TIMEOUT_S, D_N };
 static const char *dn[] = { "deliver", "drop", "dup", "swap", "hold", "timeout-c", "timeout-s" };
@@ -31,7 +32,7 @@ struct Net {
     // (equivalent to dropping the rest, which a lossy network may do) so every case terminates.
     void deliver(int d, const Bytes &b) { if (++deliveries > 400) { capped = true; return; } Endpoint &to = *e[1 - d];
         if (verbose) { fprintf(stderr, "  %s dgram %zu bytes:", d ? "s->c" : "c->s", b.size()); for (auto &r : parse_records(b, true)) { fprintf(stderr, " [t%u e%u s%llu len%zu", r.type, r.epoch, (unsigned long long) r.seq, r.len); if (r.type == 22 && r.epoch == 0 && r.len >= 12) { const uint8_t *h = &b[r.off + 13]; fprintf(stderr, " hs%u msn%u foff%u flen%u/%u", h[0], h[4] << 8 | h[5], h[6] << 16 | h[7] << 8 | h[8], h[9] << 16 | h[10] << 8 | h[11], h[1] << 16 | h[2] << 8 | h[3]); } if (r.type == 21 && r.len == 2) fprintf(stderr, " ALERT %u/%u", b[r.off + 13], b[r.off + 14]); fprintf(stderr, "]"); } fprintf(stderr, "\n"); }
-        if (to.ssl) { int rc = to.feed_dgram(b); if (verbose) fprintf(stderr, "     -> rc=%d\n", rc); } }
+        if (to.ssl) { int rc = to.feed_dgram(b); if (verbose) { unsigned long bm; unsigned char lr[6], ee[2]; vfh_dtls_replay_state(to.ssl, &bm, lr, ee); fprintf(stderr, "     -> rc=%d  [rx state: expEpoch=%u lastRsn=%u bitmap=%lx]\n", rc, ee[0] << 8 | ee[1], lr[4] << 8 | lr[5], bm); } } }
 };
 
 static Bytes numbered(char who, int n, size_t len) { Bytes b(len < 8 ? 8 : len, (uint8_t) who); std::string s = fmt("%c-%05d-", who, n); memcpy(b.data(), s.data(), 8); return b; }
@@ -64,24 +65,39 @@ static void prop(Tape &t, Ctx &c) {
       if (!works[key]) { c.count("config-fails-lossfree(outside-domain)"); throw Discard{}; } }
     Pair p; if (!mk(p, sid)) throw Discard{};
     Net net; net.e[0] = &p.c; net.e[1] = &p.s; net.desc = desc; net.verbose = c.verbose;
+    const bool no_exclude = getenv("VF_NO_EXCLUDE") != nullptr;
     bool c_was = false, s_was = false; unsigned drops = 0, dups = 0, reorders = 0, timeouts = 0;
     auto regress_check = [&]() {
         if (p.c.hs_complete()) c_was = true; if (p.s.hs_complete()) s_was = true;
         VF_CHECK(!c_was || p.c.hs_complete(), "handshake-state-regressed", "client: HandshakeIsComplete went back to false; %s", desc.c_str());
         VF_CHECK(!s_was || p.s.hs_complete(), "handshake-state-regressed", "server: HandshakeIsComplete went back to false; %s", desc.c_str());
+        // Known finding (see known_findings.json): a MatrixSSL server cannot rebuild an ECDHE_RSA ServerHello flight for
+        // retransmission; the resend flags the session as failed.  Classified by (suite kind, failing side, phase) so that
+        // any other way of killing a session is still reported.
+        bool ecdhe_rsa = su.id == 0xC013 || su.id == 0xC027 || su.id == 0xC028 || su.id == 0xC02F || su.id == 0xC030;
+        if (ecdhe_rsa && p.s.failed && !s_was && !p.c.failed && !p.c.req_close) VF_FAIL("loss-or-duplication-killed-session:ecdhe-rsa-server-flight-resend-fails", "server could not retransmit its ECDHE_RSA flight (rc=%d); %s", p.s.last_rc, desc.c_str());
+        // Known finding class "handshake-retransmission": before both sides have completed, a schedule that forces flights to be
+        // retransmitted or reassembled out of order (any timeout / duplicate / reorder / drop) can end the session.
+        bool disturbed = drops + dups + reorders + timeouts > 0;
+        for (Endpoint *e : { &p.c, &p.s }) if ((e->failed || e->req_close || e->fatal_alert_recv >= 0) && disturbed && !(c_was && s_was))
+            VF_FAIL("loss-or-duplication-killed-session:handshake-retransmission", "%s ended the session during a disturbed handshake (rc=%d alert_recv=%d req_close=%d); %s", e->cfg.client ? "client" : "server", e->last_rc, e->fatal_alert_recv, e->req_close, desc.c_str());
         for (Endpoint *e : { &p.c, &p.s }) VF_CHECK(!e->failed && !e->req_close && e->fatal_alert_recv < 0, "loss-or-duplication-killed-session", "%s ended the session (rc=%d alert_recv=%d req_close=%d) although nothing was forged; %s", e->cfg.client ? "client" : "server", e->last_rc, e->fatal_alert_recv, e->req_close, desc.c_str());
     };
     // ---- adversarial phase
     for (auto &a : adv) {
         net.collect(); int d = a.second; auto &q = net.q[d];
+        // Known finding (known_findings.json, C16 "fragment-reorder"): reordering the fragments of a fragmented handshake flight
+        // can end the session.  Excluded by construction (counted) unless VF_NO_EXCLUDE is set (used to replay the reproducer).
+        if ((a.first == D_SWAP || a.first == D_HOLD) && pmtu < 1500 && !no_exclude) { c.count("excluded:reorder-with-fragmentation"); a.first = D_DELIVER; }
         switch (a.first) {
         case D_DELIVER: if (!q.empty()) { Bytes b = q.front(); q.pop_front(); net.deliver(d, b); } break;
         case D_DROP: if (!q.empty()) { q.pop_front(); drops++; } break;
         case D_DUP: if (!q.empty()) { Bytes b = q.front(); q.pop_front(); net.deliver(d, b); net.deliver(d, b); dups++; } break;
         case D_SWAP: if (q.size() >= 2) { std::swap(q[0], q[1]); reorders++; } break;
         case D_HOLD: if (q.size() >= 2) { Bytes b = q.front(); q.pop_front(); q.push_back(b); reorders++; } break;
-        case D_TIMEOUT_C: p.c.dtls_timeout(); timeouts++; break;
-        case D_TIMEOUT_S: p.s.dtls_timeout(); timeouts++; break;
+        // a retransmission timer only exists once an endpoint has sent a flight
+        case D_TIMEOUT_C: if (!net.captured[0].empty()) { p.c.dtls_timeout(); timeouts++; } break;
+        case D_TIMEOUT_S: if (!net.captured[1].empty()) { p.s.dtls_timeout(); timeouts++; } break;
         }
         regress_check();
     }
@@ -97,9 +113,10 @@ static void prop(Tape &t, Ctx &c) {
         if (moved) continue;
         if (p.c.hs_complete() && p.s.hs_complete()) break;
         if (rounds++ >= R) break;
-        p.c.dtls_timeout(); p.s.dtls_timeout();
+        if (!net.captured[0].empty()) p.c.dtls_timeout();
+        if (!net.captured[1].empty()) p.s.dtls_timeout();
     }
-    VF_CHECK(p.c.hs_complete() && p.s.hs_complete(), "dtls-handshake-did-not-complete-in-fair-phase", "after %d timeout rounds of loss-free delivery: client complete=%d server complete=%d; %s", rounds, p.c.hs_complete(), p.s.hs_complete(), desc.c_str());
+    VF_CHECK(p.c.hs_complete() && p.s.hs_complete(), pmtu < 1500 ? "dtls-handshake-did-not-complete-in-fair-phase:fragmented-flights" : net.capped ? "dtls-handshake-did-not-complete-in-fair-phase:retransmission-livelock" : "dtls-handshake-did-not-complete-in-fair-phase", "after %d timeout rounds of loss-free delivery: client complete=%d server complete=%d; %s", rounds, p.c.hs_complete(), p.s.hs_complete(), desc.c_str());
     c.count("completed"); c.count("fair-timeout-rounds", rounds);
     net.deliveries = 0; net.capped = false; net.q[0].clear(); net.q[1].clear();
     // ---- data phase with duplication / reordering / drops
